@@ -1217,12 +1217,25 @@ func classOfStored(v ssa.Value) string {
 type phiLeaf struct {
 	v    ssa.Value
 	pred *ssa.BasicBlock // predecessor block the value arrives from (nil if not via a phi)
+	at   *ssa.BasicBlock // block of the phi the value enters
+}
+
+// facts that hold on the edge on which the leaf enters its phi.
+func (l phiLeaf) edgeFacts() []fact {
+	if l.pred == nil {
+		return nil
+	}
+	fs := guardsOfBlock(l.pred)
+	if l.at != nil {
+		fs = append(fs, lastBranchFact(l.pred, l.at)...)
+	}
+	return fs
 }
 
 func phiLeavesWithPred(v ssa.Value) []phiLeaf {
 	ph, ok := v.(*ssa.Phi)
 	if !ok {
-		return []phiLeaf{{v, nil}}
+		return []phiLeaf{{v, nil, nil}}
 	}
 	var out []phiLeaf
 	for i, e := range ph.Edges {
@@ -1231,7 +1244,7 @@ func phiLeavesWithPred(v ssa.Value) []phiLeaf {
 			out = append(out, phiLeavesWithPred(e)...)
 			continue
 		}
-		out = append(out, phiLeaf{e, ph.Block().Preds[i]})
+		out = append(out, phiLeaf{e, ph.Block().Preds[i], ph.Block()})
 	}
 	return out
 }
